@@ -122,11 +122,22 @@ def observe(cfg, read, want, extra=None):
         a1 = cfg.build()
         a2 = cfg.build()
         a2.kmer_finder = NoPrefilter()
-        ad = _adapter_cache[k] = (a1, a2)
+        # the same adapter after a pickle round trip: what a worker process works with when processes are
+        # started with spawn / forkserver (a reported match there is a reported match too)
+        try:
+            import pickle
+            p1 = pickle.loads(pickle.dumps(a1))
+            p2 = pickle.loads(pickle.dumps(a1))
+            p2.kmer_finder = NoPrefilter()
+        except Exception:  # noqa  (a tree whose adapters cannot be pickled: the variant is not available)
+            p1 = p2 = None
+        ad = _adapter_cache[k] = (a1, a2, p1, p2)
     e = cfg.fields()
     e["r"] = codes(read)
     e["want"] = list(want)
-    for tag, adapter in (("", ad[0]), ("_nf", ad[1])):
+    use_pickled = ad[2] is not None and (hash((cfg.key(), read)) % 7 == 0)
+    e["pickled"] = use_pickled
+    for tag, adapter in (("", ad[2] if use_pickled else ad[0]), ("_nf", ad[3] if use_pickled else ad[1])):
         try:
             m = adapter.match_to(read)
             crash = None
